@@ -300,6 +300,15 @@ theorem c06_owner_steps_decrease (c : Cfg) (s s' : SState) (a : SAct) (outs : Li
   | serve _ _ => simp [SAct.isOwnerStep] at ha
   | fault _ _ _ => simp [SAct.isOwnerStep] at ha
 
+/-- non-vacuity: in the demo run the reply to the listdatastore request is an owner step from a
+    reachable state, and it takes the measure from (30, 0) down to (12, 0) -/
+example : ∃ s s' outs, Reach demoCfg s ∧
+    sstep demoCfg .current s (.deliver .owner .dsList) = some (s', outs) ∧
+    ownerMeas s = (30, 0) ∧ ownerMeas s' = (12, 0) ∧ lt2 (ownerMeas s') (ownerMeas s) := by
+  refine ⟨_, _, _, ⟨[.arrive ⟨0, 1000000, true⟩ 1006000 1400 300 1006000, .serve .owner .dsList], ?_, rfl⟩, rfl, rfl, rfl, ?_⟩
+  · intro a ha; simp at ha; rcases ha with rfl | rfl <;> trivial
+  · show lt2 (12, 0) (30, 0); simp [lt2]
+
 /-- the measure is well-founded: there is no infinite descending chain of owner steps -/
 theorem c06_measure_wf : WellFounded (fun s' s : SState => lt2 (ownerMeas s') (ownerMeas s)) :=
   InvImage.wf ownerMeas lt2_wf
